@@ -19,7 +19,7 @@ for m in sorted(glob.glob(os.path.join(V, "seeded", "*", "meta.json"))):
 out.append("### 9.2 Independently seeded changes (%d kept)\n" % len(seeds))
 out.append("Each was written by a fresh sub-agent that saw only the property text and its own scratch worktree (nothing from /verif), then "
            "confirmed by me in a scratch worktree (suite passes with the change; demonstration fails with it and passes without it), then run "
-           "against every check with `tools/run_seed.py`. *first run* = result before any strengthening; *now* = with the committed checks. Seven rounds of agents, later rounds told which ideas had already been used (round 4 per property): round 1: 63 seeds, 43 reported at the first run; round 2: 80 seeds, 64 at the first run; round 3 (all 20 properties, three waves): 72 seeds written, 71 kept (one failed the suite in my confirmation), 61 at the first run; round 4 (the seven properties with misses in round 3): 16 seeds, 8 at the first run; round 5 (seven other properties): 12 seeds, all 12 at the first run (with only a per-property exclusion list the agents drifted back to ideas that other properties' agents had had before); round 6 (eight properties, every agent given the titles of ALL 242 earlier changes): 7 seeds (three agents found nothing new that the suite does not already catch), 6 at the first run; round 7 (a later session, five of the least-seeded properties, 14-minute agents): 5 seeds, 4 at the first run (`C09-r7-1`, a thread-local variate cache in Normal(), was reported by C18.5 and is now also decided under C09 as C09.5; `C17-r7-1`, a barrier rewritten so that the last arriver recycles the other counter with a plain store, was `inconclusive` as an unknown algorithm and is now refuted by the reset-hazard replay of C17.7). Every miss became a rule (table in section 5) except `C08-r3-1`, which no check reports and which is explained in section 8. The falling first-run rate of round 4 is the honest measure of what one more round of genuinely new ideas still finds: agents pushed away from every earlier idea reach bookkeeping that no rule looks at yet about half of the time.\n")
+           "against every check with `tools/run_seed.py`. *first run* = result before any strengthening; *now* = with the committed checks. Seven rounds of agents, later rounds told which ideas had already been used (round 4 per property): round 1: 63 seeds, 43 reported at the first run; round 2: 80 seeds, 64 at the first run; round 3 (all 20 properties, three waves): 72 seeds written, 71 kept (one failed the suite in my confirmation), 61 at the first run; round 4 (the seven properties with misses in round 3): 16 seeds, 8 at the first run; round 5 (seven other properties): 12 seeds, all 12 at the first run (with only a per-property exclusion list the agents drifted back to ideas that other properties' agents had had before); round 6 (eight properties, every agent given the titles of ALL 242 earlier changes): 7 seeds (three agents found nothing new that the suite does not already catch), 6 at the first run; round 7 (a later session, 14-minute agents on five of the least-seeded properties): 4 seeds kept (C07, C09, C15, C18), all 4 reported at the first run (`C09-r7-1`, a thread-local variate cache in Normal(), was reported by C18.5 only and is now also decided under C09 as C09.5). The fifth agent (C17) rewrote the barrier so that the last arriver recycles the other counter with a plain store after its spin; the checks answered `inconclusive` (an unknown algorithm), which led to the reset-hazard replay of C17.7; in my confirmation the change then hung `test_correctness_parallel` (gdb: both workers spinning in `sync_thread_barrier` - the lost arrival the replay predicts), so it does not pass the existing suite and is kept as the catalog mutant `last-arriver-recycles-other-counter`, not as a seed. A second wave of three 9-minute agents (C03, C10, C13) only repeated earlier ideas (fossil scan `<=` GVT twice, comparator limited to the inline payload bytes), all reported at the first run by C03/C04/C13 and C16; they were not confirmed or kept. Every miss became a rule (table in section 5) except `C08-r3-1`, which no check reports and which is explained in section 8. The falling first-run rate of round 4 is the honest measure of what one more round of genuinely new ideas still finds: agents pushed away from every earlier idea reach bookkeeping that no rule looks at yet about half of the time.\n")
 out.append("| seed | breaks | change | needs, to manifest | caught at first run by | caught now by | strengthening it caused |")
 out.append("|------|--------|--------|--------------------|------------------------|---------------|--------------------------|")
 for s in seeds:
